@@ -337,7 +337,7 @@ theorem llRunG_tree (T : LLTables) (o : Opts) (fuel : Nat) (toks : List MTok)
       · rename_i s hpush
         obtain ⟨pr, hpr, hst, hin, _⟩ := pushProduction_spec hpush
         obtain ⟨hf1, hf2, hf3, hf4⟩ := pushProduction_fields hpr hpush
-        simp only [List.append_nil] at hst hin hf1 hf2 hf3 hf4
+        simp only at hst hin hf1 hf2 hf3 hf4
         have hno : PT.t 0 ∉ s.stack := by
           rw [hst]
           intro hm
